@@ -351,7 +351,7 @@ def run(ctx):
 
     ev.set(samples=samples, exhaustive=True,
            rule="every text of the index-addressed universes (all strings of length<=%d over an 18-character alphabet; all 1- and "
-                "2-fragment concatenations and sampled 3-fragment ones from a 126-fragment pool; seeded random longer texts; all "
+                "2-fragment concatenations and sampled 3-fragment ones from a 120-fragment pool; seeded random longer texts; all "
                 "strings of length<=%d over 9 token characters + 15 representatives of the 8 classes of non-token characters and "
                 "sampled ones of length 4; context x 25 representatives x context; all strings of length<=%d over {1 . e E + - a _} "
                 "and sampled longer / embedded ones; head x body x tail file corners; sampled unit^count+window texts with "
